@@ -260,6 +260,10 @@ func checkJsonRpcUrlChildCompatible(d *directive.Directive) *jerr.JApiError {
 	var isBaseJsonRpc bool
 
 	for _, dd := range d.Children {
+		if dd.Type() == directive.Tags {
+			// The Tags of the URL are for the methods of both protocols.
+			continue
+		}
 		if base == nil {
 			base = dd
 			isBaseJsonRpc = isJsonRpcUrlChildDirective(base)
